@@ -327,7 +327,7 @@ impl Block {
 
 /// All distributions of exactly `total` nodes over the slots (smallest-first order is obtained by
 /// calling this for total = 0, 1, 2, ...).
-pub fn blocks(trees: &mut Trees, total: usize) -> Vec<Block> {
+pub fn blocks(trees: &mut Trees, total: usize, with_start_stop: bool) -> Vec<Block> {
     fn rec(slot: usize, left: usize, cur: &mut [usize; 10], out: &mut Vec<[usize; 10]>) {
         if slot == 10 {
             if left == 0 {
@@ -347,6 +347,9 @@ pub fn blocks(trees: &mut Trees, total: usize) -> Vec<Block> {
     for sizes in dists {
         // cheap necessary condition for reachability: lane slots need a level-0 slot
         if sizes[ROOT] + sizes[START] + sizes[STOP] == 0 && total > 0 {
+            continue;
+        }
+        if !with_start_stop && sizes[START] + sizes[STOP] > 0 {
             continue;
         }
         let mut lists = vec![];
